@@ -58,6 +58,7 @@ class Gen:
         self.tail = {MAIN: [], LIB: []}
         self.opts = None                 # None = all options on
         self.features = set()
+        self.force = None                # (op class, (l, o, r), condition context): the enumerated condition-position family
         self.big_cols = 2 if "wide" in profile else 0
         self.big_lines = 1 if "tall" in profile else 0
         self.big_fill = 1 if "heavy" in profile else 0
@@ -298,8 +299,18 @@ class Gen:
         if self.recursion_target(i) is not None:
             ops += ["recursion", "recursion"]
         op = self.pick(ops)
+        if self.force:
+            op = self.force[0]
         name, file = self.names[i], self.files[i]
         post = []
+        if self.force:
+            l, o, r = self.force[1]
+            if op == "binop-ns" or o == "/":
+                self.infrag = False
+            m = self.frame(i, name, file)
+            if o == "not in":
+                return op, "%s%snot %sin%s%s" % (self.operand([l]), g(1), m, g(1), self.operand([r])), post
+            return op, "%s%s%s%s%s%s" % (self.operand([l]), g(1), m, o, g(1), self.operand([r])), post
         if op in ("binop", "binop-ns", "cmp", "divzero"):
             if op == "binop":         # inside RefSem's fragment
                 l, o, r = self.pick([("int", "+", "none"), ("none", "+", "int"), ("int", "-", "none"), ("none", "-", "int"), ("int", "+", "str"),
@@ -454,6 +465,9 @@ class Gen:
         n = self.pick([0, 0, 1, 1, 1, 2, 2, 3]) if "plain" not in self.profile else self.pick([0, 0, 1])
         ws = [self.pick(["paren", "paren", "list", "list2", "tuple", "dict", "lcomp", "lcomp", "dcomp-val", "dcomp-key", "comp-if", "comp-for2",
                          "comp-first", "comp-nested", "or", "and", "cond-then", "cond-else", "cond-test", "not", "call-arg"]) for _ in range(n)]
+        if self.force:
+            ws = [self.force[2]] if self.force[2] in ("cond-test", "comp-if-bare", "comp-if-not", "cond-test-and") else []
+            n = len(ws)
         e = inner(inbr or n > 0)
         for k, w in enumerate(reversed(ws)):
             g = lambda least=0: self.gap(True, least)
@@ -478,6 +492,12 @@ class Gen:
                 e = "{%s%s%s:%s0 for %s in [0]}" % (g(), e, g(), g(), q)
             elif w == "comp-if":
                 e = "[%s for %s in [0]%sif%s(%s%s)]" % (q, q, g(1), g(1), e, g())
+            elif w == "comp-if-bare":      # the site is the bare condition of a comprehension clause
+                e = "[%s for %s in [0]%sif%s%s%s]" % (q, q, g(1), g(1), e, g())
+            elif w == "comp-if-not":
+                e = "[%s for %s in [0]%sif not%s%s%s]" % (q, q, g(1), g(1), e, g())
+            elif w == "cond-test-and":
+                e = "(1 if 1 and%s%s%selse 0)" % (g(1), e, g(1))
             elif w == "comp-for2":
                 e = "[%s for %s in [0]%sfor %s in [%s%s%s]]" % (q, q, g(1), q2, g(), e, g())
             elif w == "comp-first":
@@ -530,7 +550,10 @@ class Gen:
         sind = indent + ("    " if nest else "")
         saved_post, self.post_local = self.post_local, []
         w = None
-        if last and self.chance(0.3):
+        if self.force:
+            nest = None
+            sind = indent
+        if last and not self.force and self.chance(0.3):
             self.op, site = self.failing_stmt(i, sind)
             simple = False
         else:
@@ -548,6 +571,8 @@ class Gen:
             if in_def:
                 forms += ["return%(s1)s%(e)s", "return%(s1)s%(e)s"]
             f = self.pick(forms) if "plain" not in self.profile else forms[0]
+            if self.force and last:
+                f = CONDFORMS.get(self.force[2], "%(v)s%(s)s=%(s2)s%(e)s")
             simple = "\n" not in f and not f.startswith("if") and not f.startswith("for")
             site = [sind + f % {"v": self.fresh("v"), "s": self.sp(), "s1": self.sp(1), "s2": self.sp(), "e": e, "i": sind}]
         if w is not None and w in self.used_outer:
@@ -607,14 +632,35 @@ PROFILES = [({"plain"}, 8), ({"bound"}, 44), ({"bound", "wide"}, 14), ({"bound",
             ({"bound", "wide", "heavy"}, 3), ({"bound", "wide", "tall", "heavy"}, 1)]
 
 
-def make_case(rnd, cid):
+# the condition-position family: the compiler translates a condition by a separate routine (jumps instead of values, with its
+# own cases for not / and / or / not in), so every failing binary operation is also placed, bare, in every condition position
+CONDFORMS = {"if": "if%(s1)s%(e)s%(s)s:\n%(i)s    pass", "elif": "if 0:\n%(i)s    pass\n%(i)selif%(s1)s%(e)s%(s)s:\n%(i)s    pass",
+             "while": "while%(s1)s%(e)s%(s)s:\n%(i)s    break", "if-not": "if not%(s1)s%(e)s%(s)s:\n%(i)s    pass",
+             "if-and": "if 1 and%(s1)s%(e)s%(s)s:\n%(i)s    pass", "if-or": "if 0 or%(s1)s%(e)s%(s)s:\n%(i)s    pass",
+             "if-and-l": "if%(s1)s%(e)s%(s1)sand 1:\n%(i)s    pass", "if-or-l": "if%(s1)s%(e)s%(s1)sor 1:\n%(i)s    pass",
+             "if-not-and": "if not (1 and%(s1)s%(e)s%(s)s):\n%(i)s    pass"}
+CONDCTX = sorted(CONDFORMS) + ["cond-test", "comp-if-bare", "comp-if-not", "cond-test-and"]
+CONDOPS = ([("binop", t) for t in [("int", "+", "none"), ("none", "-", "int"), ("str", "+", "int"), ("none", "//", "int"), ("int", "%", "none")]] +
+           [("binop-ns", t) for t in [("int", "*", "none"), ("int", "|", "none"), ("int", "<<", "none"), ("int", "in", "int"), ("int", "not in", "int"),
+                                      ("none", "not in", "int"), ("list", "-", "list")]] +
+           [("cmp", t) for t in [("int", "<", "none"), ("none", "<=", "int"), ("str", ">", "int"), ("int", ">=", "str")]] +
+           [("divzero", t) for t in [("int", "//", "zero"), ("int", "%", "zero")]])
+COND_FAMILY = [(oc, t, cx) for (oc, t) in CONDOPS for cx in CONDCTX]
+
+
+def make_case(rnd, cid, force=None):
     tot = sum(w for _, w in PROFILES)
     x = rnd.randrange(tot)
     for prof, w in PROFILES:
         if x < w:
             break
         x -= w
+    if force:
+        prof = {"bound"}
     g = Gen(rnd, prof)
+    g.force = force
+    if force:
+        g.features.add("condpos:" + force[2])
     depth = rnd.choice([1, 2, 2, 3, 3, 4, 4, 5, 6, 7, 8])
     files = g.program(depth)
     clean, frames = {}, []
@@ -807,8 +853,8 @@ def run(ctx):
     nprog = 2000 if ctx.quick else 24000
     max_refsem_weight = 400
     cases, heavy_refsem, nrefsem, refsem_cap = [], 0, 0, (10 ** 9 if ctx.quick else 7000)
-    for i in range(nprog):
-        c = make_case(rnd, i + 1)
+    for i in range(nprog + len(COND_FAMILY)):
+        c = make_case(rnd, i + 1, COND_FAMILY[i - nprog] if i >= nprog else None)
         # RefSem is evaluated on the programs that may be inside its fragment (a bounded number of them in the thorough tier,
         # and only a few of the programs with thousands of statements: TLC's evaluation depth grows with the program)
         c["refsem"] = c["infrag"] and nrefsem < refsem_cap and (c["weight"] <= max_refsem_weight or heavy_refsem < (3 if ctx.quick else 12))
